@@ -14,6 +14,7 @@ m·UUᵀ − I, DC/Nyquist sign) ≤ 1e-9; the laws of the statement on the impl
 n-fold return, offset 0 = identity, refinement laws) at 1e-9; bitwise equality against a twin
 RandomState.  Statements about random draws are per-draw certificates.
 """
+import cmath
 import math
 import warnings
 
@@ -25,7 +26,7 @@ from nengo_spa import vector_generation as vg
 from nengo_spa.algebras import HrrAlgebra, TvtbAlgebra, VtbAlgebra
 
 PROPERTY = "C19"
-LEAN_MODULES = ["SpaModel.Props.C19"]
+LEAN_MODULES = ["SpaModel.Props.C19", "SpaModel.Props.C19S"]
 AUDIT = "SpaModel/Audit/C19.lean"
 DRIVER = "drivers/C19.lean"
 RULE = ("one case = one yielded vector (or one refused request) of one generator configuration "
@@ -559,6 +560,26 @@ def sec_equally_spaced(ctx, nd):
                     continue
                 if not np.array_equal(np.array(rows), eq_vectors(d, n, off).vectors):
                     ctx.fail(case, "two constructions differ", "same sequence", where="reproducible")
+                # spectral tie (Props/C19S.lean): vector k is `C19.Spectral19.vector (d-1) e_k` with
+                # e_k = (k + offset)*cc/n, evaluated from the definitions (explicit half-spectrum sum, no FFT)
+                if d <= 24 or d in (31, 32, 63, 64):
+                    cc_ = (d + 1) // 2
+                    roots = [cmath.exp(2j * math.pi * (cc_ - w) / cc_) for w in range(d // 2 + 1)]
+                    for k, u in enumerate(rows):
+                        e_k = (k + off) * cc_ / n
+                        hk = [r ** e_k for r in roots]
+                        mv = []
+                        for j in range(d):
+                            acc = 0.0
+                            for w in range(d // 2 + 1):
+                                fw = 1.0 if (w == 0 or 2 * w == d) else 2.0
+                                acc += fw * (hk[w] * cmath.exp(2j * math.pi * ((w * j) % d) / d)).real
+                            mv.append(acc / d)
+                        err = float(np.abs(np.array(mv) - u).max())
+                        ctx.extra["spectral_vector_max_err"] = max(ctx.extra.get("spectral_vector_max_err", 0.0), err)
+                        if err > TOL * max(1.0, abs(e_k)):
+                            ctx.diff(dict(case, k=k, exponent=e_k), err, "C19.Spectral19.vector within 1e-9", op="spectral-vector")
+                            break
                 worst = F(0)
                 for k, u in enumerate(rows):
                     ctx.count(f"eq {d} {n} {off} {k}", nontrivial=d >= 2, branch="equally-spaced-vector")
